@@ -319,6 +319,15 @@ theorem PresS.discard {R : State → State → Prop} [PreOrd R] {α} {x : M α} 
   rw [LawfulFunctor.map_const]
   exact Pres.map _ hx
 macro_rules | `(tactic| qleaf) => `(tactic| with_reducible apply PresS.discard)
+/-- dropping a `Var` handle touches `vars` and `deadVars` only -/
+theorem PresS.dropVarHandle (v) : Pres Stamp (dropVarHandle v) := by
+  unfold Engine.dropVarHandle; qpres
+stamp_leaf PresS.dropVarHandle
+/-- `withVarHandle v act` is `act` or a no-op -/
+theorem PresS.withVarHandle {R : State → State → Prop} [PreOrd R] (v) {act : M Unit}
+    (h : Pres R act) : Pres R (withVarHandle v act) := by
+  unfold Engine.withVarHandle; qpres; exact h; exact h
+macro_rules | `(tactic| qleaf) => `(tactic| with_reducible apply PresS.withVarHandle)
 theorem PresS.runEffectBasic (env e) : Pres Stamp (runEffectBasic env e) := by
   unfold Engine.runEffectBasic; qpres
 stamp_leaf PresS.runEffectBasic
